@@ -8,6 +8,7 @@ abbrev Tid := Nat
 inductive Op | merge | cancel | invoke
 inductive Pc
   | idle
+  | iRegH                      -- owns the source lane: inside the registration handler (client code; first invocation)
   | iRead                      -- owns the source lane, about to read the flags
   | iLatched                   -- read "not cancelled" and pending ≠ 0: committed to call the event handler
   | iHandler                   -- inside the event handler
@@ -33,7 +34,7 @@ structure Sh where
   cancelStarts : Nat := 0          -- cancel handler invocations
   evStartsAtCallout : Option Nat := none  -- evStarts when the cancel handler was taken
 
-def step (sh : Sh) (t : Tid) (pc : Pc) (op : Op) : List (Sh × Pc) :=
+def stepCore (sh : Sh) (t : Tid) (pc : Pc) (op : Op) : List (Sh × Pc) :=
   match pc with
   | .idle =>
     match op with
@@ -41,7 +42,12 @@ def step (sh : Sh) (t : Tid) (pc : Pc) (op : Op) : List (Sh × Pc) :=
     | .cancel =>
       if sh.canceled then [(sh, .idle)]
       else [({ sh with canceled := true, evStartsAtCancel := some sh.evStarts, committedAtCancel := sh.latched }, .idle)]
-    | .invoke => if sh.owner.isNone then [({ sh with owner := some t }, .iRead)] else []
+    | .invoke => if sh.owner.isNone then [({ sh with owner := some t }, .iRegH), ({ sh with owner := some t }, .iRead)] else []
+  | .iRegH =>
+    -- the registration handler returns; it may have cancelled its own source. The flags are (re)read afterwards.
+    [(sh, .iRead),
+     (if sh.canceled then sh
+      else { sh with canceled := true, evStartsAtCancel := some sh.evStarts, committedAtCancel := false }, .iRead)]
   | .iRead =>
     if !sh.canceled && sh.pending > 0 then [({ sh with pending := 0, latched := true }, .iLatched)]   -- xchg(pending, 0)
     else [(sh, .iReread)]
@@ -63,6 +69,15 @@ def step (sh : Sh) (t : Tid) (pc : Pc) (op : Op) : List (Sh × Pc) :=
     else [({ sh with pending := 0 }, .iDone)]
   | .iCancelH => [(sh, .iDone)]
   | .iDone => [({ sh with owner := none }, .idle)]
+
+/-- the points at which `_dispatch_source_invoke2` may return without going further: it is not on the queue the next
+    action needs (redirect to the manager / target queue), or the kernel unregistration is deferred -/
+def canLeave : Pc → Bool
+  | .iRead | .iReread | .iUnreg | .iCallout => true
+  | _ => false
+
+def step (sh : Sh) (t : Tid) (pc : Pc) (op : Op) : List (Sh × Pc) :=
+  stepCore sh t pc op ++ (if canLeave pc then [(sh, .iDone)] else [])
 
 structure St where
   sh : Sh
@@ -141,8 +156,8 @@ theorem L_owner {sh' : Sh} {t : Tid} {pc' : Pc} (ho : sh'.owner = some t) (hown 
    fun h => by rcases h with h | h; exact absurd h hn1; exact absurd h hn2⟩
 
 set_option maxHeartbeats 4000000 in
-theorem step_local {sh : Sh} {t : Tid} {pc : Pc} {op : Op} {sh' : Sh} {pc' : Pc}
-    (g : G sh) (l : L sh t pc) (h : (sh', pc') ∈ step sh t pc op) : Post sh sh' t pc' := by
+theorem step_local_core {sh : Sh} {t : Tid} {pc : Pc} {op : Op} {sh' : Sh} {pc' : Pc}
+    (g : G sh) (l : L sh t pc) (h : (sh', pc') ∈ stepCore sh t pc op) : Post sh sh' t pc' := by
   obtain ⟨g1, g2, g3, g4, g5, g6⟩ := g
   have lown := l.own
   cases pc with
@@ -154,10 +169,10 @@ theorem step_local {sh : Sh} {t : Tid} {pc : Pc} {op : Op} {sh' : Sh} {pc' : Pc}
         (by intro h; rcases h with h | h <;> cases h), (by intro h; cases h), (by intro h; rcases h with h | h <;> cases h)⟩
     cases op with
     | merge =>
-      simp only [step] at h
+      simp only [stepCore] at h
       split at h <;> (simp at h; obtain ⟨rfl, rfl⟩ := h; exact ⟨⟨g1, g2, g3, g4, g5, g6⟩, lidle _ rfl, others_client rfl rfl rfl rfl rfl (fun x => x)⟩)
     | cancel =>
-      simp only [step] at h
+      simp only [stepCore] at h
       split at h
       · simp at h; obtain ⟨rfl, rfl⟩ := h
         exact ⟨⟨g1, g2, g3, g4, g5, g6⟩, lidle _ rfl, others_client rfl rfl rfl rfl rfl (fun x => x)⟩
@@ -168,16 +183,45 @@ theorem step_local {sh : Sh} {t : Tid} {pc : Pc} {op : Op} {sh' : Sh} {pc' : Pc}
         · intro n e; simp at e; subst e; rfl
         · intro hh; have := (g5 hh).2.1; rw [hc'] at this; cases this
     | invoke =>
-      simp only [step] at h
+      simp only [stepCore] at h
       split at h
       · rename_i hn
         have hn' : sh.owner = none := by cases ho : sh.owner <;> simp_all
         have ⟨hl0, hi0⟩ := g6 hn'
-        simp at h; obtain ⟨rfl, rfl⟩ := h
-        refine ⟨⟨g1, g2, g3, g4, g5, by intro e; cases e⟩,
-          L_owner rfl rfl hl0 hi0 (by simp) (by simp) (by intro h; rcases h with h | h <;> cases h) (by intro h; cases h),
-          others_owner (Or.inr hn') (Or.inl rfl)⟩
+        simp at h
+        rcases h with ⟨rfl, rfl⟩ | ⟨rfl, rfl⟩
+        · refine ⟨⟨g1, g2, g3, g4, g5, by intro e; cases e⟩,
+            L_owner rfl rfl hl0 hi0 (by simp) (by simp) (by intro h; rcases h with h | h <;> cases h) (by intro h; cases h),
+            others_owner (Or.inr hn') (Or.inl rfl)⟩
+        · refine ⟨⟨g1, g2, g3, g4, g5, by intro e; cases e⟩,
+            L_owner rfl rfl hl0 hi0 (by simp) (by simp) (by intro h; rcases h with h | h <;> cases h) (by intro h; cases h),
+            others_owner (Or.inr hn') (Or.inl rfl)⟩
       · simp at h
+  | iRegH =>
+    have ho : sh.owner = some t := lown.mp rfl
+    have hl0 : sh.latched = false := by
+      cases hx : sh.latched with
+      | false => rfl
+      | true => have := (l.lt ho).mp hx; cases this
+    have hi0 : sh.inHandler = false := by
+      cases hx : sh.inHandler with
+      | false => rfl
+      | true => have := (l.ih ho).mp hx; cases this
+    simp only [stepCore, List.mem_cons, Prod.mk.injEq, List.mem_nil_iff, or_false] at h
+    have keepL : ∀ (s2 : Sh), s2.owner = sh.owner → s2.latched = sh.latched → s2.inHandler = sh.inHandler → L s2 t .iRead := by
+      intro s2 e1 e2 e3
+      exact L_owner (e1 ▸ ho) rfl (e2 ▸ hl0) (e3 ▸ hi0) (by simp) (by simp) (by intro h; rcases h with h | h <;> cases h) (by intro h; cases h)
+    rcases h with ⟨rfl, rfl⟩ | ⟨h1, rfl⟩
+    · exact ⟨⟨g1, g2, g3, g4, g5, g6⟩, keepL _ rfl rfl rfl, others_owner (Or.inl ho) (Or.inl ho)⟩
+    · by_cases hc : sh.canceled = true
+      · rw [if_pos hc] at h1; subst h1
+        exact ⟨⟨g1, g2, g3, g4, g5, g6⟩, keepL _ rfl rfl rfl, others_owner (Or.inl ho) (Or.inl ho)⟩
+      · rw [if_neg hc] at h1; subst h1
+        have hc' : sh.canceled = false := by cases hx : sh.canceled <;> simp_all
+        refine ⟨⟨rfl, ?_, fun _ => rfl, g4, ?_, by intro e; rw [ho] at e; cases e⟩, keepL _ rfl rfl rfl,
+          others_owner (Or.inl ho) (Or.inl ho)⟩
+        · intro n e; simp at e; subst e; simp [hl0, b2n]
+        · intro hh; have := (g5 hh).2.1; rw [hc'] at this; cases this
   | iRead =>
     have ho : sh.owner = some t := lown.mp rfl
     have hl0 : sh.latched = false := by
@@ -188,7 +232,7 @@ theorem step_local {sh : Sh} {t : Tid} {pc : Pc} {op : Op} {sh' : Sh} {pc' : Pc}
       cases hx : sh.inHandler with
       | false => rfl
       | true => have := (l.ih ho).mp hx; cases this
-    simp only [step] at h
+    simp only [stepCore] at h
     split at h
     · rename_i hc
       have hnc : sh.canceled = false := by simp at hc; exact hc.1
@@ -209,7 +253,7 @@ theorem step_local {sh : Sh} {t : Tid} {pc : Pc} {op : Op} {sh' : Sh} {pc' : Pc}
     have ho : sh.owner = some t := lown.mp rfl
     have hlat : sh.latched = true := (l.lt ho).mpr rfl
     have hch := l.pre (Or.inl rfl)
-    simp [step] at h; obtain ⟨rfl, rfl⟩ := h
+    simp [stepCore] at h; obtain ⟨rfl, rfl⟩ := h
     refine ⟨⟨g1, ?_, g3, g4, (by intro hh; rw [hch] at hh; cases hh), by intro e; rw [ho] at e; cases e⟩, ?_, others_owner (Or.inl ho) (Or.inl ho)⟩
     · intro n e; have := g2 n e; simp [hlat, b2n] at this ⊢; omega
     · exact ⟨by simp [owns, ho], fun _ => by simp, fun _ => by simp, (by intro h; rcases h with h | h <;> cases h),
@@ -222,7 +266,7 @@ theorem step_local {sh : Sh} {t : Tid} {pc : Pc} {op : Op} {sh' : Sh} {pc' : Pc}
       | false => rfl
       | true => have := (l.lt ho).mp hx; cases this
     have hch := l.pre (Or.inr rfl)
-    simp only [step, List.mem_cons, Prod.mk.injEq, List.mem_nil_iff, or_false] at h
+    simp only [stepCore, List.mem_cons, Prod.mk.injEq, List.mem_nil_iff, or_false] at h
     have keepG : G { sh with inHandler := false } :=
       ⟨g1, g2, g3, g4, (by intro hh; rw [hch] at hh; cases hh), by intro e; rw [ho] at e; cases e⟩
     have keepL : L { sh with inHandler := false } t .iReread :=
@@ -247,7 +291,7 @@ theorem step_local {sh : Sh} {t : Tid} {pc : Pc} {op : Op} {sh' : Sh} {pc' : Pc}
       cases hx : sh.inHandler with
       | false => rfl
       | true => have := (l.ih ho).mp hx; cases this
-    simp only [step] at h
+    simp only [stepCore] at h
     split at h
     · rename_i hc
       simp at hc
@@ -277,7 +321,7 @@ theorem step_local {sh : Sh} {t : Tid} {pc : Pc} {op : Op} {sh' : Sh} {pc' : Pc}
       cases hx : sh.inHandler with
       | false => rfl
       | true => have := (l.ih ho).mp hx; cases this
-    simp [step] at h; obtain ⟨rfl, rfl⟩ := h
+    simp [stepCore] at h; obtain ⟨rfl, rfl⟩ := h
     refine ⟨⟨g1, g2, fun _ => hc, g4, ?_, g6⟩,
       L_owner ho rfl hl0 hi0 (by simp) (by simp) (fun _ => ⟨hc, rfl⟩) (by intro h; cases h),
       others_owner (Or.inl ho) (Or.inl ho)⟩
@@ -293,7 +337,7 @@ theorem step_local {sh : Sh} {t : Tid} {pc : Pc} {op : Op} {sh' : Sh} {pc' : Pc}
       cases hx : sh.inHandler with
       | false => rfl
       | true => have := (l.ih ho).mp hx; cases this
-    simp only [step] at h
+    simp only [stepCore] at h
     split at h
     · rename_i hch
       have ⟨c0, _⟩ := g4 hch
@@ -317,7 +361,7 @@ theorem step_local {sh : Sh} {t : Tid} {pc : Pc} {op : Op} {sh' : Sh} {pc' : Pc}
       cases hx : sh.inHandler with
       | false => rfl
       | true => have := (l.ih ho).mp hx; cases this
-    simp [step] at h; obtain ⟨rfl, rfl⟩ := h
+    simp [stepCore] at h; obtain ⟨rfl, rfl⟩ := h
     exact ⟨⟨g1, g2, g3, g4, g5, g6⟩,
       L_owner ho rfl hl0 hi0 (by simp) (by simp) (by intro h; rcases h with h | h <;> cases h) (by intro h; cases h),
       others_owner (Or.inl ho) (Or.inl ho)⟩
@@ -331,10 +375,32 @@ theorem step_local {sh : Sh} {t : Tid} {pc : Pc} {op : Op} {sh' : Sh} {pc' : Pc}
       cases hx : sh.inHandler with
       | false => rfl
       | true => have := (l.ih ho).mp hx; cases this
-    simp [step] at h; obtain ⟨rfl, rfl⟩ := h
+    simp [stepCore] at h; obtain ⟨rfl, rfl⟩ := h
     refine ⟨⟨g1, g2, g3, g4, g5, fun _ => ⟨hl0, hi0⟩⟩, ?_, others_owner (Or.inl ho) (Or.inr rfl)⟩
     exact ⟨by simp [owns], (by intro e; cases e), (by intro e; cases e), (by intro h; rcases h with h | h <;> cases h),
       (by intro h; cases h), (by intro h; rcases h with h | h <;> cases h)⟩
+
+theorem step_local {sh : Sh} {t : Tid} {pc : Pc} {op : Op} {sh' : Sh} {pc' : Pc}
+    (g : G sh) (l : L sh t pc) (h : (sh', pc') ∈ step sh t pc op) : Post sh sh' t pc' := by
+  simp only [step, List.mem_append] at h
+  rcases h with h | h
+  · exact step_local_core g l h
+  · by_cases hc : canLeave pc = true
+    · rw [if_pos hc] at h
+      simp at h; obtain ⟨rfl, rfl⟩ := h
+      have hown : owns pc = true := by cases pc <;> simp_all [canLeave, owns]
+      have ho : sh'.owner = some t := l.own.mp hown
+      have hl0 : sh'.latched = false := by
+        cases hx : sh'.latched with
+        | false => rfl
+        | true => have := (l.lt ho).mp hx; subst this; simp [canLeave] at hc
+      have hi0 : sh'.inHandler = false := by
+        cases hx : sh'.inHandler with
+        | false => rfl
+        | true => have := (l.ih ho).mp hx; subst this; simp [canLeave] at hc
+      exact ⟨g, L_owner ho rfl hl0 hi0 (by simp) (by simp) (by intro h; rcases h with h | h <;> cases h) (by intro h; cases h),
+        others_owner (Or.inl ho) (Or.inl ho)⟩
+    · rw [if_neg hc] at h; simp at h
 
 structure Inv (s : St) : Prop where
   g : G s.sh
